@@ -2,6 +2,11 @@
 
 package store
 
+import (
+	enc "github.com/DataDog/sketches-go/ddsketch/encoding"
+	"github.com/DataDog/sketches-go/ddsketch/pb/sketchpb"
+)
+
 // C04 — BufferedPaginatedStore: buffer of unit-weight indexes + 32-wide count pages.
 
 // zzPagShape: which page slots are allocated (len 32), which are allocated-but-truncated (len 0,
@@ -433,3 +438,100 @@ func ZZ_C04_pag_observers_3() { zzC04PagObservers(3) }
 func ZZ_C04_pag_observers_4() { zzC04PagObservers(4) }
 func ZZ_C04_pag_observers_5() { zzC04PagObservers(5) }
 func ZZ_C04_pag_observers_6() { zzC04PagObservers(6) }
+
+// ---------- round 3: one DECODE step from an arbitrary valid paginated state ----------
+// An index-delta block (three unit-weight indexes near the page table / the buffered entries, written by
+// the real varint encoder) decoded into any of the enumerated layouts with a SYMBOLIC compaction trigger
+// (states with trigger < len(buffer) <= cap(buffer) arise after a compaction followed by further unit adds):
+// every byte of the block and no more is consumed, the invariant holds and the content is the old content
+// plus one unit per decoded index.
+func zzC04PagDecodeDeltas(k int) {
+	zzvBound("paginated decode step", "enumerated layouts as for the add step (buffered indexes, compaction trigger in [0,4096], page cells symbolic; page base from {0,-3,1000}); a block of three index deltas at enumerated offsets from the page base / 0, followed by two further bytes that must be left unread")
+	s := zzPagState("s", zzPagCfgs(k))
+	zzvAssume(zzInvPag(s))
+	pre := zzSnapPag(s)
+	// the block is a byte string: the page base is pinned to an enumerated value for this step
+	base := 0
+	if s.minPageIndex != maxInt {
+		K := []int{0, -3, 1000}[zzvChoose("pageBase", 3)]
+		zzvAssume(s.minPageIndex == K)
+		base = K << 5
+	}
+	offs := [][]int{{3, -7, 3}, {40, 41, 300}}[zzvChoose("offsets", 2)]
+	p := zzvMInt("probe", -(1 << 35), 1<<35)
+	zzvCover("pre-state")
+	// the deltas are written relative to a symbolic base: first delta = base+offs[0] is symbolic, hence
+	// the block is assembled from the real encoder's output for each delta
+	b := []byte{}
+	enc.EncodeUvarint64(&b, 3)
+	prev := 0
+	for _, o := range offs {
+		enc.EncodeVarint64(&b, int64(base+o-prev))
+		prev = base + o
+	}
+	n := len(b)
+	b = append(b, 0x55, 0x01)
+	err := s.DecodeAndMergeWith(&b, enc.BinEncodingIndexDeltas)
+	zzvAssert("decode-ok", err == nil)
+	zzvAssert("exactly-the-block-is-consumed", len(b) == 2 && n > 0)
+	zzvAssert("inv-preserved", zzInvPag(s))
+	add := 0.0
+	for _, o := range offs {
+		add += zzvIteF64(p == base+o, 1, 0)
+	}
+	zzvAssert("content", zzAbsPag(s, p) == zzAbsPag(pre, p)+add)
+	zzvAssert("total", zzTotalPag(s) == zzTotalPag(pre)+3)
+}
+func ZZ_C04_pag_decode_deltas_1() { zzC04PagDecodeDeltas(1) }
+func ZZ_C04_pag_decode_deltas_2() { zzC04PagDecodeDeltas(2) }
+func ZZ_C04_pag_decode_deltas_3() { zzC04PagDecodeDeltas(3) }
+func ZZ_C04_pag_decode_deltas_5() { zzC04PagDecodeDeltas(5) }
+func ZZ_C06_pag_decode_deltas_into_used_store() { zzC04PagDecodeDeltas(3) }
+
+// ---------- round 3: protobuf bins merged into a CLEARED paginated store (stale truncated pages) ----------
+// A message whose contiguous counts span three pages, merged through the package-level MergeWithProto and
+// through the method, into a cleared store all of whose page slots still hold stale cells: the content is
+// exactly the message's (no stale weight reappears).
+func zzPagMergeProtoIntoCleared(viaMethod bool) {
+	zzvBound("proto into cleared paginated store", "cleared store with 8 page slots, all truncated with symbolic stale cells, spare buffer capacity; message with 96 contiguous counts (three pages; counts from a fixed sparse pattern incl. an all-zero middle page or a middle page with one count) at page base from {0,-3}, with or without two sparse bins")
+	s := zzPagState("s", zzPagCfg{B: 0, bufExtra: 3, P: 8, stale: []int{0, 1, 2, 3, 4, 5, 6, 7}})
+	zzvAssume(zzInvPag(s))
+	K := []int{0, -3}[zzvChoose("pageBase", 2)]
+	counts := make([]float64, 96)
+	counts[0], counts[31], counts[95] = 0.5, 2, 1
+	if zzvChoose("middle", 2) == 1 {
+		counts[40] = 3
+	}
+	sparse := zzvChoose("withSparseBins", 2) == 1
+	msg := &sketchpb.Store{ContiguousBinCounts: counts, ContiguousBinIndexOffset: int32(K << 5)}
+	if sparse {
+		msg.BinCounts = map[int32]float64{int32(K<<5 + 200): 1, int32(K<<5 - 70): 2.5}
+	}
+	p := zzvMInt("probe", -(1 << 35), 1<<35)
+	zzvCover("pre-state")
+	if viaMethod {
+		s.MergeWithProto(msg)
+	} else {
+		MergeWithProto(s, msg)
+	}
+	zzvAssert("inv-preserved", zzInvPag(s))
+	want := 0.0
+	for k, c := range counts {
+		if c != 0 {
+			want += zzvIteF64(p == K<<5+k, c, 0)
+		}
+	}
+	tot := 3.5
+	if sparse {
+		want += zzvIteF64(p == K<<5+200, 1, 0) + zzvIteF64(p == K<<5-70, 2.5, 0)
+		tot += 3.5
+	}
+	zzvAssert("content-is-the-message", zzAbsPag(s, p) == want)
+	if counts[40] != 0 {
+		tot += 3
+	}
+	zzvAssert("total-is-the-message-total", zzTotalPag(s) == tot)
+}
+func ZZ_C09_proto_into_cleared_pag_function() { zzPagMergeProtoIntoCleared(false) }
+func ZZ_C09_proto_into_cleared_pag_method()   { zzPagMergeProtoIntoCleared(true) }
+func ZZ_C15_proto_into_cleared_pag()          { zzPagMergeProtoIntoCleared(false) }
